@@ -79,6 +79,7 @@ def norm_vec(v):
     v = dict(v)
     v["ans"] = [[norm_tla(t) for t in a] for a in v["ans"]]
     v["ball"] = norm_tla(v["ball"])
+    v["balts"] = [norm_tla(t) for t in v.get("balts", [])]
     v["out"] = [norm_tla(t) for t in v["out"]]
     return v
 
